@@ -1,11 +1,17 @@
 package remoting
 
 import (
+	"encoding/binary"
+	"fmt"
+	"io"
 	"net"
 	"time"
 
 	"github.com/kercylan98/vivid/internal/messages"
 )
+
+// maxHandshakeAddrLength 握手中广告地址的最大长度
+const maxHandshakeAddrLength = 4096
 
 type Handshake struct {
 	AdvertiseAddr string // 广告地址
@@ -27,12 +33,24 @@ func (h *Handshake) Send(conn net.Conn) error {
 }
 
 func (h *Handshake) Wait(conn net.Conn) error {
-	var buf = make([]byte, 4096)
 	if err := conn.SetReadDeadline(time.Now().Add(time.Second * 10)); err != nil {
 		return err
 	}
 
-	if _, err := conn.Read(buf); err != nil {
+	// 握手数据为“4 字节长度 + 地址”。必须恰好读取这些字节：
+	// 单次 conn.Read 既可能只读到握手数据的一部分（TCP 拆分时握手失败），
+	// 也可能连同其后的消息帧一并读出（TCP 合并时这些帧被握手吞掉而丢失）
+	var lengthBuf [4]byte
+	if _, err := io.ReadFull(conn, lengthBuf[:]); err != nil {
+		return err
+	}
+	length := binary.BigEndian.Uint32(lengthBuf[:])
+	if length > maxHandshakeAddrLength {
+		return fmt.Errorf("handshake address too long: %d (max %d)", length, maxHandshakeAddrLength)
+	}
+	buf := make([]byte, 4+length)
+	copy(buf, lengthBuf[:])
+	if _, err := io.ReadFull(conn, buf[4:]); err != nil {
 		return err
 	}
 	reader := messages.NewReaderFromPool(buf)
